@@ -279,8 +279,12 @@ func (w *world) opMonitor(o op, cls Class, out *big.Int, before, after *snap) *v
 		// allowed (on a discarded branch of the state) returns no more
 		vb := nonneg(before.vals[o.U][d])
 		lim := new(big.Int).Add(vb, x)
+		// classify: the known defect is a first deposit into a vault without shares whose
+		// strategy still holds value (left there by the dust sweep): the depositor's value
+		// is then exactly deposit + leftover; any other profit is something else
 		sig := "roundtrip-profit"
-		if before.vrec[d] == nil && before.position(d).Sign() > 0 {
+		if before.vrec[d] == nil && before.position(d).Sign() > 0 &&
+			after.vals[o.U][d].Cmp(new(big.Int).Add(lim, before.position(d))) <= 0 {
 			sig = "deposit-captures-orphaned-value"
 		}
 		if after.vals[o.U][d].Cmp(lim) > 0 {
@@ -328,12 +332,29 @@ func (w *world) opMonitor(o op, cls Class, out *big.Int, before, after *snap) *v
 		if after.shr[o.U][d].Cmp(before.shr[o.U][d]) >= 0 {
 			return &verdict{"withdraw-burns-shares", "withdraw-burned-no-shares", denoms[d]}
 		}
+
 		// the shares burnt beyond the payout are dust: what the account gives up
-		// (value before - paid - value after) is a rounding residue
+		// (value before - paid - value after) is at most one coin of rounding
 		loss := new(big.Int).Sub(vb, out)
 		loss.Sub(loss, nonneg(after.vals[o.U][d]))
-		if loss.Cmp(big.NewInt(2)) > 0 {
-			return &verdict{"earn-dust-sweep-is-dust", "dust-sweep-forfeits-more-than-dust",
+		if loss.Cmp(big.NewInt(1)) > 0 {
+			// classify: the known defect is the dust rule of Withdraw, which values the
+			// remaining shares r = s - floor(x*T/V) at floor((V-w)*r/T) (total value
+			// already reduced, total shares not yet) and deletes them when that is 0
+			sig := "withdraw-forfeits-value-unexplained"
+			if before.vrec[d] != nil && before.position(d).Sign() > 0 && after.shr[o.U][d].Sign() == 0 {
+				T, V := before.vrec[d], before.position(d)
+				ws0 := new(big.Int).Mul(x, T)
+				ws0.Quo(ws0, V)
+				r := new(big.Int).Sub(before.shr[o.U][d], ws0)
+				est := new(big.Int).Sub(V, out)
+				est.Mul(est, r)
+				est.Quo(est, T)
+				if r.Sign() > 0 && est.Sign() == 0 {
+					sig = "dust-sweep-forfeits-more-than-dust"
+				}
+			}
+			return &verdict{"earn-dust-sweep-is-dust", sig,
 				fmt.Sprintf("%s user %d: value before %s, requested %s, paid %s, value after %s: %s units forfeited (vault position %s -> %s, record %v -> %v)",
 					denoms[d], o.U, vb, x, out, nonneg(after.vals[o.U][d]), loss, before.position(d), after.position(d), before.vrec[d], after.vrec[d])}
 		}
